@@ -3,7 +3,30 @@
 use sophia_iri::Iri;
 use sophia_resource::loader::{Loader, LoaderError, LocalLoader};
 use std::path::{Path, PathBuf};
+use std::sync::{Arc, Mutex};
+use sophia_api::prelude::*;
+use sophia_api::term::SimpleTerm;
+use sophia_resource::Resource;
 use verif_harness::*;
+
+/// A loader that forwards `get` to a LocalLoader and records every call with its outcome: the provided methods of the
+/// Loader trait (get_graph, get_resource, ...) and the link-following methods of Resource then run on top of it, so
+/// every file access they cause (links in loaded data, JSON-LD remote contexts) is seen at the `get` level.
+struct Spy { inner: LocalLoader, log: Mutex<Vec<(String, Result<(Vec<u8>, String), u64>)>> }
+impl Loader for Spy {
+    fn get<T: std::borrow::Borrow<str>>(&self, iri: Iri<T>) -> Result<(Vec<u8>, String), LoaderError> {
+        let r = self.inner.get(iri.as_ref());
+        let rec = match &r { Ok((d, c)) => Ok((d.clone(), c.clone())), Err(LoaderError::NotFound(_)) => Err(1), Err(LoaderError::UnsupportedIri(..)) => Err(2), Err(LoaderError::IoError(..)) => Err(3), Err(_) => Err(9) };
+        self.log.lock().unwrap().push((iri.as_str().to_string(), rec));
+        r
+    }
+}
+/// the path a data file says it has: files either contain their own path, or (RDF files) a `PATH:<path>` marker
+fn path_of(content: &str) -> String {
+    let c = content.trim_start_matches("CANARY:");
+    match c.find("PATH:") { Some(i) => c[i + 5..].split(|ch: char| ch == '"' || ch == '\n' || ch == ' ' || ch == '<').next().unwrap().to_string(), None => c.to_string() }
+}
+type G = Vec<[SimpleTerm<'static>; 3]>;
 
 fn comps(p: &Path) -> Vec<String> { p.components().filter_map(|c| match c { std::path::Component::Normal(s) => Some(s.to_str().unwrap().to_string()), _ => None }).collect() }
 fn c_path(p: &[String]) -> String { coq_list(p.iter().map(|s| coq_str(s))) }
@@ -24,6 +47,7 @@ non-trivial = the IRI contains a dot/empty/encoded segment or an absolute remain
     // model file system: every existing path with its kind, including the ancestors of root
     let mut fs_entries: Vec<(Vec<String>, bool)> = vec![];
     { let rc = comps(&root); for i in 1..=rc.len() { fs_entries.push((rc[..i].to_vec(), false)); } }
+    let mut extra_shards: Vec<String> = vec![];
     fn walk(dir: &Path, out: &mut Vec<(Vec<String>, bool)>) { for e in std::fs::read_dir(dir).unwrap() { let e = e.unwrap(); let p = e.path(); let isf = p.is_file(); out.push((comps(&p), isf)); if !isf { walk(&p, out) } } }
     walk(&root, &mut fs_entries);
     let c_fs = coq_list(fs_entries.iter().map(|(p, f)| format!("({}, {})", c_path(p), coq_bool(*f))));
@@ -160,7 +184,7 @@ non-trivial = the IRI contains a dot/empty/encoded segment or an absolute remain
             Ok((data, ctype)) => {
                 let s = String::from_utf8_lossy(data).to_string();
                 let ct = match ctype.as_str() { "text/turtle" => 1, "application/n-triples" => 2, "application/ld+json" => 3, "application/rdf+xml" => 4, _ => 0 };
-                (0, comps(Path::new(s.trim_start_matches("CANARY:"))), ct, format!("Ok(content of {s}, {ctype})"))
+                (0, comps(Path::new(&path_of(&s))), ct, format!("Ok(content of {}, {ctype})", path_of(&s)))
             }
             Err(LoaderError::NotFound(_)) => (1, vec![], 0, "NotFound".into()),
             Err(LoaderError::UnsupportedIri(..)) => (2, vec![], 0, "UnsupportedIri".into()),
@@ -169,7 +193,8 @@ non-trivial = the IRI contains a dot/empty/encoded segment or an absolute remain
         };
         // oracle: content only ever comes from inside the directory of a namespace prefixing the IRI
         if let Ok((data, _)) = &res {
-            let s = String::from_utf8_lossy(data).to_string();
+            let raw = String::from_utf8_lossy(data).to_string();
+            let s = if raw.starts_with("CANARY:") || raw.contains("CANARY-PATH:") { format!("CANARY:{}", path_of(&raw.replace("CANARY-PATH:", "PATH:"))) } else { path_of(&raw) };
             let no_frag = iri.split('#').next().unwrap();
             let maps: Vec<(String, PathBuf)> = if use_gen { gen_accepted.clone() } else { vec![(ns1.to_string(), d1.clone()), (ns2.to_string(), d2.clone())] };
             let ok = !s.starts_with("CANARY:") && maps.iter().any(|(ns, d)| no_frag.starts_with(ns.as_str()) && Path::new(&s).starts_with(d));
@@ -199,8 +224,118 @@ non-trivial = the IRI contains a dot/empty/encoded segment or an absolute remain
             if got != want_s { sum.oracle_failures.push(("config-symlink".into(), format!("mapping http://e/ln/ -> <root>/link/../r3 with link -> real/sub (so the directory is <root>/real/r3): get({req:?}) returned {got:?}, expected {want_s:?}"))); }
         }
     }
+    // ---------- links followed in loaded data (resource/src/loader/_trait.rs provided methods, resource/_struct.rs) ----------
+    if a.only.is_none() {
+        let hub_targets: Vec<String> = {
+            let ca = canary_abs.trim_start_matches('/');
+            let mut v: Vec<String> = ["t1.ttl", "t1", "d/t2.nt", "./d//t2", "t1.ttl#frag", "t3.jsonld", "t3", "t4.rdf", "t4", "sub/../t1.ttl", "no-such-file",
+                "../leak.ttl", "../leak", "d/../../leak.ttl", "%2e%2e/leak.ttl", "..%2fleak.ttl", "", "./", "sub//..//../leak.ttl", "t1.ttl/../../leak.ttl",
+                "sub/../../leak.ttl", "sub/t5.ttl", "sub/t5", "sub/../../outside/leak.nt", "../r1x/leak", "../r1", "../r1.ttl#x"].iter().map(|t| format!("{ns1}{t}")).collect();
+            v.push(format!("{ns1}/{ca}")); v.push(format!("{ns1}//{ca}")); v.push("http://e/leak.ttl".into()); v.push("http://other/ns/t1.ttl".into()); v.push("file:///etc/hostname".into());
+            v.push(format!("{ns2}../leak.ttl")); v.push(format!("{ns2}t5.ttl")); v
+        };
+        // relative references as they may be written in a Turtle / JSON-LD / RDF-XML document (resolved by the parser against the document IRI)
+        let hub_relative = ["../leak.ttl", "../../leak.ttl", "/leak.ttl", "/ns/../leak.ttl", "//e/ns/../leak.ttl", "t1.ttl", "./d/t2.nt", "d/../../leak", "..", ".", "sub/../../leak.ttl", "%2e%2e/leak.ttl"];
+        let marker = |p: &Path| format!("PATH:{}", p.display());
+        let rdf_file = |rel: &str, canary: bool, body_ttl: &str, links: &[(String, String)]| {
+            let p = root.join(rel); std::fs::create_dir_all(p.parent().unwrap()).unwrap();
+            let m = if canary { format!("CANARY-{}", marker(&p)) } else { marker(&p) };
+            let ext = rel.rsplit('.').next().unwrap();
+            let text = match ext {
+                "ttl" => format!("# {m}\n<> <http://x/marker> \"{m}\" .\n{body_ttl}{}", links.iter().map(|(p, o)| format!("<> <{p}> <{o}> .\n<{o}> <{}r> <> .\n", p)).collect::<String>()),
+                "nt" => format!("# {m}\n<http://x/doc> <http://x/marker> \"{m}\" .\n{}", links.iter().map(|(p, o)| format!("<{}> <{p}> <{o}> .\n", "http://e/ns/hub.nt")).collect::<String>()),
+                "jsonld" => format!("{{\"@id\": \"\", \"http://x/marker\": \"{m}\"{}}}", links.iter().map(|(p, o)| format!(", \"{p}\": {{\"@id\": \"{o}\"}}")).collect::<String>()),
+                _ => format!("<?xml version=\"1.0\"?>\n<!-- {m} -->\n<rdf:RDF xmlns:rdf=\"http://www.w3.org/1999/02/22-rdf-syntax-ns#\" xmlns:x=\"http://x/\">\n<rdf:Description rdf:about=\"\"><x:marker>{m}</x:marker>{}</rdf:Description>\n</rdf:RDF>\n",
+                             links.iter().map(|(p, o)| format!("<x:{} rdf:resource=\"{}\"/>", p.trim_start_matches("http://x/"), o.replace('&', "&amp;"))).collect::<String>()),
+            };
+            std::fs::write(&p, text).unwrap();
+        };
+        for f in ["r1/t1.ttl", "r1/d/t2.nt", "r1/t3.jsonld", "r1/t4.rdf", "r2/t5.ttl", "r1/sub/t5.ttl"] { rdf_file(f, false, "", &[]); }
+        for f in ["leak.ttl", "leak.nt", "outside/leak.nt", "outside/leak.ttl", "r1x/leak.ttl", "r2/leak.ttl", "etc-leak.ttl"] { rdf_file(f, true, "", &[]); }
+        let abs_links: Vec<(String, String)> = hub_targets.iter().enumerate().map(|(k, t)| (format!("http://x/l{k}"), t.clone())).collect();
+        let rel_links: Vec<(String, String)> = hub_relative.iter().enumerate().map(|(k, t)| (format!("http://x/q{k}"), t.to_string())).collect();
+        let mut both = abs_links.clone(); both.extend(rel_links.clone());
+        rdf_file("r1/hub.ttl", false, "", &both); rdf_file("r1/hub.jsonld", false, "", &both); rdf_file("r1/hub.rdf", false, "", &both);
+        rdf_file("r1/hub.nt", false, "", &abs_links);
+        // the model's file system has to know the new files
+        let mut fs2: Vec<(Vec<String>, bool)> = vec![];
+        { let rc = comps(&root); for i in 1..=rc.len() { fs2.push((rc[..i].to_vec(), false)); } }
+        walk(&root, &mut fs2);
+        let c_fs2 = coq_list(fs2.iter().map(|(p, f)| format!("({}, {})", c_path(p), coq_bool(*f))));
+        let mk = || LocalLoader::new(vec![(Iri::new_unchecked(ns1.into()), d1.clone()), (Iri::new_unchecked(ns2.into()), d2.clone())]).unwrap();
+        let spy = Arc::new(Spy { inner: mk(), log: Mutex::new(vec![]) });
+        let plain = Arc::new(mk());
+        let inside = |iri: &str, file: &str| -> bool { let nf = iri.split('#').next().unwrap(); [(ns1, &d1), (ns2, &d2)].iter().any(|(ns, d)| nf.starts_with(ns) && Path::new(file).starts_with(d)) };
+        let marker_of = |g: &G| -> Vec<String> { g.triples_matching(Any, [Iri::new_unchecked("http://x/marker")], Any).map(|t| t.unwrap().o().lexical_form().map(|l| l.to_string()).unwrap_or_default()).collect() };
+        let mut link_cases: Vec<(usize, String)> = vec![];
+        let mut n_followed = 0usize;
+        for hub in ["hub.ttl", "hub.nt", "hub.jsonld", "hub.rdf", "hub"] {
+            let hub_iri = format!("{ns1}{hub}");
+            // (a) through the recording loader
+            let r_spy: Result<Resource<G, Spy>, _> = spy.get_resource(Iri::new_unchecked(hub_iri.clone()));
+            let r_plain: Result<Resource<G, LocalLoader>, _> = plain.get_resource(Iri::new_unchecked(hub_iri.clone()));
+            let (Ok(r_spy), Ok(r_plain)) = (r_spy, r_plain) else { sum.oracle_failures.push(("links".into(), format!("the hub document {hub_iri} (inside the mapped directory) could not be loaded as a resource"))); continue };
+            sum.bump("links:hub-loaded");
+            let preds: Vec<String> = both.iter().map(|(p, _)| p.clone()).collect();
+            for p in &preds {
+                let pi = Iri::new_unchecked(p.as_str());
+                for how in 0..4 {
+                    // the four ways of following a link: exactly-one, any, all, reverse
+                    let followed: Vec<Result<Resource<G, LocalLoader>, String>> = match how {
+                        0 => vec![r_plain.get_resource(pi).map_err(|e| format!("{e:?}"))],
+                        1 => match r_plain.get_any_resource(pi) { Ok(Some(x)) => vec![Ok(x)], Ok(None) => vec![], Err(e) => vec![Err(format!("{e:?}"))] },
+                        2 => r_plain.get_all_resources(pi).map(|x| x.map_err(|e| format!("{e:?}"))).collect(),
+                        _ => if hub == "hub.ttl" { r_plain.pred_all_resources(Iri::new_unchecked(format!("{p}r"))).map(|x| x.map_err(|e| format!("{e:?}"))).collect() } else { vec![] },
+                    };
+                    for f in followed {
+                        n_followed += 1; sum.evaluations += 1;
+                        if let Ok(nb) = f {
+                            for m in marker_of(nb.graph()) {
+                                let file = path_of(&m.replace("CANARY-PATH:", "PATH:"));
+                                let id = nb.id().iri().map(|i| i.as_str().to_string()).unwrap_or_default();
+                                let base = nb.base().map(|b| b.as_str().to_string()).unwrap_or_default();
+                                sum.bump("links:neighbour-loaded");
+                                if m.contains("CANARY") || !(inside(&base, &file) || inside(&id, &file)) {
+                                    sum.oracle_failures.push(("links".into(), format!("following the link {p} of {hub_iri} (method {}) loaded {file}, which is outside every directory mapped to a namespace prefixing the link's IRI {id}", ["get_resource", "get_any_resource", "get_all_resources", "pred_all_resources"][how])));
+                                }
+                            }
+                        }
+                    }
+                }
+                // same links through the recording loader (its log is checked below)
+                let _ = r_spy.get_resource(pi); let _ = r_spy.get_any_resource(pi); let _ = r_spy.get_all_resources(pi).count();
+                if hub == "hub.ttl" { let _ = r_spy.pred_all_resources(Iri::new_unchecked(format!("{p}r"))).count(); }
+            }
+        }
+        // get_graph / get_typed-less entry points on IRIs given by the caller
+        for t in &hub_targets { if !t.contains('#') { if let Ok(i) = Iri::new(t.as_str()) { let _: Result<G, _> = spy.get_graph(i); } } }
+        // every `get` the link-following code issued: confinement oracle + the model's answer for that IRI
+        let log = spy.log.lock().unwrap();
+        let mut seen_l = std::collections::HashSet::new();
+        for (k, (iri, rec)) in log.iter().enumerate() {
+            if !seen_l.insert(iri.clone()) { continue; }
+            sum.evaluations += 1; sum.distinct_nontrivial += 1; sum.bump("links:get-issued-by-link-following");
+            let (code, pth, ct) = match rec {
+                Ok((data, ctype)) => {
+                    let raw = String::from_utf8_lossy(data).to_string();
+                    let file = path_of(&raw.replace("CANARY-PATH:", "PATH:"));
+                    if raw.contains("CANARY") || !inside(iri, &file) { sum.oracle_failures.push(("links".into(), format!("link following made the loader open {file} for the IRI {iri}: outside every directory mapped to a namespace prefixing it"))); }
+                    (0u64, comps(Path::new(&file)), match ctype.as_str() { "text/turtle" => 1, "application/n-triples" => 2, "application/ld+json" => 3, "application/rdf+xml" => 4, _ => 0 })
+                }
+                Err(c) => (*c, vec![], 0),
+            };
+            if sum.samples.len() < 8 && k % 7 == 0 { sum.samples.push(format!("link-following get({iri}) => code {code} {pth:?}")); }
+            link_cases.push((1_000_000 + k, format!("get_ok the_fs2 Consts.loader_exts cfgA {} {code} {} {ct}", coq_str(iri), c_path(&pth))));
+        }
+        sum.extra.push(("links_followed".into(), n_followed.to_string()));
+        let header2 = format!("{header}Definition the_fs2 : fsys := {c_fs2}.\n");
+        let dir2 = format!("{}/links", a.out); std::fs::create_dir_all(&dir2).unwrap();
+        let sh2 = write_shards(&dir2, &header2, &link_cases, 1);
+        for f in sh2 { let _ = std::fs::rename(format!("{dir2}/{f}"), format!("{}/links_{f}", a.out)); extra_shards.push(format!("links_{f}")); }
+    }
     if a.only.is_none() {
         sum.shards = write_shards(&a.out, &header, &cases, a.shards);
+        sum.shards.extend(extra_shards.clone());
         sum.extra.push(("coq_cases".into(), cases.len().to_string()));
         std::fs::write(format!("{}/summary.json", a.out), sum.to_json()).unwrap();
     }
